@@ -45,8 +45,8 @@ type c14Input struct {
 	Shape    string      `json:"shape"` // generator bucket
 	Procs    int         `json:"procs"` // GOMAXPROCS while the clients run
 	Callers  []DBCaller  `json:"callers"`
-	Setup    []DBStep    `json:"setup"`   // sequential prefix (part of the history)
-	Threads  [][]c14Call `json:"threads"` // the concurrent clients
+	Setup    []DBStep    `json:"setup"`         // sequential prefix (part of the history)
+	Threads  [][]c14Call `json:"threads"`       // the concurrent clients
 	Per      int         `json:"per,omitempty"` // calls per client between two quiescent points (0 = all at once)
 	Big      int         `json:"big,omitempty"` // bytes of an untouched filler secret: slow saves put the mutex into FIFO hand-off
 	Repeat   int         `json:"repeat,omitempty"`
@@ -54,23 +54,23 @@ type c14Input struct {
 }
 
 type c14CallObs struct {
-	Thread int     `json:"thread"` // -1 = setup
-	Inv    uint64  `json:"inv"`
-	Rsp    uint64  `json:"rsp"`
-	Op     DBStep  `json:"op"`
-	Res    resObs  `json:"res"`
-	Status int     `json:"status,omitempty"`
+	Thread int    `json:"thread"` // -1 = setup
+	Inv    uint64 `json:"inv"`
+	Rsp    uint64 `json:"rsp"`
+	Op     DBStep `json:"op"`
+	Res    resObs `json:"res"`
+	Status int    `json:"status,omitempty"`
 }
 
 type c14Obs struct {
 	Segment  int          `json:"segment"`
 	InitDisk []secDump    `json:"init_disk"` // the dump at the quiescent point before the segment
 	InitGen  uint64       `json:"init_gen"`
-	Calls []c14CallObs `json:"calls"`
-	Live  []secDump    `json:"live"`
-	Disk  []secDump    `json:"disk"`
-	Gen   uint64       `json:"gen"`
-	Note  string       `json:"note,omitempty"`
+	Calls    []c14CallObs `json:"calls"`
+	Live     []secDump    `json:"live"`
+	Disk     []secDump    `json:"disk"`
+	Gen      uint64       `json:"gen"`
+	Note     string       `json:"note,omitempty"`
 }
 
 // the filler value is not one of the value tokens: both sides call it corruptToken
@@ -354,6 +354,12 @@ func runC14Program(work string, idx int, in c14Input) ([]c14Obs, error) {
 		quiesce(obs)
 		all = append(all, *obs)
 		obs = &c14Obs{InitDisk: obs.Disk, InitGen: obs.Gen}
+	}
+	env.sink.mu.Lock()
+	torn := env.sink.torn
+	env.sink.mu.Unlock()
+	if torn > 0 {
+		return nil, fmt.Errorf("the audit writer handed %d writes to its sink that were not whole records (concurrent records interleaved, truncated or lost)", torn)
 	}
 	return all, nil
 }
